@@ -198,13 +198,29 @@ def check(ctx):
             seen = set()
             for p in paths:
                 ap = K.calls_of(p, "Operator::apply")
+                def pair_as_array(a):
+                    # std's `(T, T) -> [T; 2]` conversion, or the same written out: [pair.0, pair.1]
+                    a = peel(a, ())
+                    if callee_is(a, "Into::into", "From::from"):
+                        return a[3][0] == ("param", 2)
+                    return a[0] == "agg" and a[1] == "array" and len(a[3]) == 2 and all(K.strip(x, calls=()) == ("field", ("param", 2), i, None) for i, x in enumerate(a[3]))
+
+                def array_as_pair(v, okp_):
+                    # std's `[T; 2] -> (T, T)`, or the same written out: (arr[0], arr[1])
+                    if v is None:
+                        return False
+                    if callee_is(v, "Into::into", "From::from"):
+                        return K.strip(v[3][0], calls=()) == okp_
+                    return v[0] == "agg" and v[1] == "tuple" and len(v[3]) == 2 and all(
+                        K.strip(x, calls=())[0] == "index" and K.strip(K.strip(x, calls=())[1], calls=()) == okp_ and K.strip(x, calls=())[2][0] == "const" and K.strip(x, calls=())[2][-1] == i
+                        for i, x in enumerate(v[3]))
                 okp = len(ap) == 1 and len(ap[0][3]) == 3 and K.strip(ap[0][3][0], calls=()) == ("param", 1) and rng_passthrough(ap[0][3][2], 3) and \
-                    callee_is(peel(ap[0][3][1], ()), "Into::into", "From::from") and peel(ap[0][3][1], ())[3][0] == ("param", 2) and \
+                    pair_as_array(ap[0][3][1]) and \
                     ((c.F.fns[ap[0][4][-2]].blocks[ap[0][4][-1]]["term"].get("res") or {}).get("def") == arr)
                 kind, pay = K.outcome(p)
                 if okp and K.discr_is(p, lambda o: o == ap[0], 0):
                     v = peel(pay, ()) if pay is not None else None
-                    okp = kind == "ok" and v is not None and callee_is(v, "Into::into", "From::from") and K.strip(v[3][0], calls=()) == ("field", ap[0], 0, "Ok")
+                    okp = kind == "ok" and array_as_pair(v, ("field", ap[0], 0, "Ok"))
                     seen.add("ok")
                 elif okp and K.discr_is(p, lambda o: o == ap[0], 1):
                     okp = kind == "err" and K.conv_free(pay) == ("field", ap[0], 0, "Err") and pay == K.conv_free(pay)
